@@ -101,8 +101,10 @@ def lru_model(cap, accesses):
 
 
 def build_two_append(r, tier):
-    """Two statements appending to one file. Each has its own handler and buffer; with little output both flush once, at
-    end of stream, and O_APPEND puts the two blocks one after the other, in either order."""
+    """Two statements appending to one file. The property asks for the lines in stream order. Each statement has its own
+    handler and buffer; with little output both flush once, at end of stream, and O_APPEND puts the two blocks one after
+    the other, in either order: that outcome is the known finding C20-two-statements-one-file-grouped (all lines present,
+    grouped per statement); anything else - lines missing, overwritten, torn - is an unlisted violation."""
     n = r.choice([1, 2, 5, 12])
     recs = [[("k", "k1"), ("id", str(i + 1)), ("v", r.choice(gen.VOCAB_A)), ("w", str(r.randint(0, 999)))] for i in range(n)]
     ofmt = r.choice(["dkvp", "jsonl", "nidx"])
@@ -135,6 +137,13 @@ def eval_two_append(case, chk):
         blocks.append(r.stdout)
     pre = case["pre"].get("both.out", "").encode()
     ok = {pre + blocks[0] + blocks[1], pre + blocks[1] + blocks[0]}
+    # "in stream order": with both statements in one put, record by record - the first statement's line, then the second's
+    strict = None
+    if len(case["verbs"]) == 1:
+        p1 = blocks[0].splitlines(keepends=True)
+        p2 = [x + b";" for x in blocks[1].split(b";")[:-1]] if case["second"].startswith("printn") else blocks[1].splitlines(keepends=True)
+        if len(p1) == len(case["recs"]) == len(p2):
+            strict = pre + b"".join(a + b for a, b in zip(p1, p2))
     args = main_args(case)
     if case.get("configs") is None:
         rng = Rng(case["cseed"], "cfg")
@@ -154,6 +163,11 @@ def eval_two_append(case, chk):
         if got not in ok:
             vd.add("target-content-wrong", config=cfgs, target="both.out", two_appenders=True, got_len=len(got) if got is not None else None,
                    want_len=len(pre) + len(blocks[0]) + len(blocks[1]), got=(got or b"")[:300].decode("utf-8", "replace"))
+            break
+        if strict is not None and got != strict:
+            # all the lines are there, but as one block per statement, not in the order in which the stream produced them
+            vd.add("target-order-wrong", config=cfgs, target="both.out", grouped_per_statement=True, statements=[case["first"], case["second"]],
+                   got=(got or b"")[:200].decode("utf-8", "replace"), want=strict[:200].decode("utf-8", "replace"))
             break
     vd.notes["two_appenders_cases"] = 1
     return vd
@@ -550,6 +564,9 @@ def known_match(case, klass, detail, known):
     for kf in known:
         if kf.get("status") == "known" and kf.get("class") == klass:
             if kf.get("predicate") == "evicted-revisited-headed" and klass == "document-restarted-after-eviction":
+                return kf["id"]
+            if kf.get("predicate") == "two-statements-one-file-grouped" and klass == "target-order-wrong" and case.get("kind") == "two_append" \
+                    and detail.get("grouped_per_statement"):
                 return kf["id"]
     return None
 
